@@ -232,6 +232,9 @@ def load_hdf5(path, meta_only=False):
             dataset_dict = {}
             for dkey in h5["data"]:
                 dset = h5["data"][dkey]
+                if "path" not in dset.attrs:
+                    # interrupted `save_hdf5` (no analysis refers to it)
+                    continue
                 dbin = dset[...]
                 name = dkey + "_" + pathlib.Path(dset.attrs["path"]).name
                 dpath = pathlib.Path(tdir) / name
@@ -309,16 +312,22 @@ def save_hdf5(h5path, indent, user_rate, user_name, user_comment, h5mode="a"):
         data = h5.require_group("data")
         dhash = hash_file(indent.path)
         if dhash not in data:
-            meas = data.create_dataset(
+            data.create_dataset(
                 dhash,
                 data=np.fromfile(str(indent.path), dtype=bool),
                 **dkw
             )
-            meas.attrs["path"] = str(indent.path)
+        if "path" not in data[dhash].attrs:
+            data[dhash].attrs["path"] = str(indent.path)
         # store indentation data along with the user rate
         ana = h5.require_group("analysis")
         idd = "{}_{}".format(dhash, indent.enum)
-        if idd in ana:
+        if idd in ana and "fit" not in ana[idd]:
+            # Left over from an interrupted `save_hdf5` ("fit" is
+            # written last and marks a complete group).
+            del ana[idd]
+        new_group = idd not in ana
+        if not new_group:
             # Only allow overriding of user data if fit matches.
             # Otherwise, the rating might be wrong.
             if not np.allclose(indent["fit"], ana[idd]["fit"], equal_nan=True):
@@ -341,9 +350,6 @@ def save_hdf5(h5path, indent, user_rate, user_name, user_comment, h5mode="a"):
                     val = str(val)
                 out.attrs["fit {}".format(key)] = val
 
-            out.create_dataset("fit",
-                               data=indent["fit"][...],
-                               **dkw)
             out.create_dataset("fit range",
                                data=indent["fit range"][...],
                                **dkw)
@@ -368,6 +374,13 @@ def save_hdf5(h5path, indent, user_rate, user_name, user_comment, h5mode="a"):
         # add library versions for debugging
         out.attrs["nanite version"] = nanite_version
         out.attrs["h5py version"] = h5py.__version__
+        if new_group:
+            # Written last: `load_hdf5` ignores groups without "fit", so
+            # an interrupted save never leaves a half-written group that
+            # would make the container unreadable.
+            out.create_dataset("fit",
+                               data=indent["fit"][...],
+                               **dkw)
 
 
 def hdf5_rated(h5path, indent):
@@ -387,7 +400,7 @@ def hdf5_rated(h5path, indent):
                 ana = h5["analysis"]
                 dhash = hash_file(indent.path)
                 idd = "{}_{}".format(dhash, indent.enum)
-                if idd in ana:
+                if idd in ana and "fit" in ana[idd]:
                     is_rated = True
                     rating = ana[idd].attrs["user rate"]
                     comment = ana[idd].attrs["user comment"]
